@@ -46,6 +46,7 @@ def requests():
         Request("src/buildblock/interfile_keyword_functions.cxx", fn=["stir::standardise_interfile_keyword"]),
         Request("src/IO/interfile.cxx", fn=["stir::write_interfile_.*"], files=["/repo/src/IO/interfile.cxx"]),
         Request("src/buildblock/ProjData.cxx", fn=["stir::ProjData::.*", "stir::apply_func"], files=["/repo/src/buildblock/ProjData.cxx"]),
+        Request("src/buildblock/ExamInfo.cxx", fn=["stir::ExamInfo::.*"]),
     ]
 
 
@@ -745,7 +746,7 @@ def run(ctx):
     ]
     reqs = requests()
     ctx.ex.prefetch(reqs)
-    pdfs, pdim, pdfs_omp, ifile, hdr, hdrspect, kwu, helpers, pdbase = (ctx.ex.get(r) for r in reqs)
+    pdfs, pdim, pdfs_omp, ifile, hdr, hdrspect, kwu, helpers, pdbase, examinfo = (ctx.ex.get(r) for r in reqs)
     if pdfs is None or pdim is None:
         return
     byname = {}
@@ -797,6 +798,24 @@ def run(ctx):
         used_helpers = [f for f in fl(helpers) if f.qn in called]
         header_keys_agree(ctx, fl(ifile) + used_helpers, fl(hdr) + fl(hdrspect), fl(kwu), rule="C02.h-header-keys-agree", writers=("write_basic_interfile_PDFS_header", "write_interfile_"))
         ctx.require_count("C02.h-header-keys-agree", 25)
+        # m, n, o: the three header-text clauses of C10 applied to the projection-data header ("writing data with its header and reading
+        # the pair back yields equal geometry, exam information and values"): numbers that must come back as the same float are
+        # written with max_digits10 digits (scale factor: multiplies the stored numbers; bed positions: compared exactly by
+        # ProjDataInfo::operator==), the stream's formatting state is put back, values of list-valued keys are in the reader's list
+        from rules.C10 import rule_k_full_precision, rule_h_header_stream_format_unchanged, rule_i_enumerated_values_agree, FULL_PRECISION_KEYS
+
+        W = ("write_basic_interfile_PDFS_header", "write_interfile_")
+        keys = dict(FULL_PRECISION_KEYS)
+        keys["start vertical bed position (mm)"] = "compared exactly by ProjDataInfo::operator== (geometry equality)"
+        keys["start horizontal bed position (mm)"] = "idem"
+        wf = fl(ifile) + used_helpers
+        rule_k_full_precision(ctx, wf, rule="C02.m-quantities-written-with-full-precision", writers=W, keys=keys)
+        ctx.require_count("C02.m-quantities-written-with-full-precision", 5)
+        rule_i_enumerated_values_agree(ctx, wf, fl(hdr) + fl(hdrspect), rule="C02.n-enumerated-values-agree", writers=W)
+        ctx.require_count("C02.n-enumerated-values-agree", 6)
+        if examinfo is not None:
+            rule_h_header_stream_format_unchanged(ctx, wf, fl(examinfo), rule="C02.o-header-stream-format-unchanged")
+            ctx.require_count("C02.o-header-stream-format-unchanged", 5)
     rule_i_scaled_once(ctx, pdfs)
     rule_j_written_with_scale(ctx, pdfs)
     ctx.require_count("C02.j-written-with-scale", 7)
